@@ -28,10 +28,17 @@ type c11Case struct {
 	Start  int    `json:"start"`           // media sequence number of the first playlist
 	Events []int  `json:"events"`          // between polls: advance by k (0,1,2,3,6) or -1 = append ENDLIST
 	Audio  []int  `json:"audio,omitempty"` // a second, independently evolving rendition (multivariant entry point)
+	// AudioSlow: every response of the audio rendition (playlist and segments) takes 15 s: the rendition reaches its end long
+	// after the leading stream has
+	AudioSlow bool `json:"audio_slow,omitempty"`
 }
 
 func (c c11Case) String() string {
-	return fmt.Sprintf("win=%d type=%q style=%s start=%d events=%v audio=%v", c.Window, c.Type, c.Style, c.Start, c.Events, c.Audio)
+	slow := ""
+	if c.AudioSlow {
+		slow = " audio-slow"
+	}
+	return fmt.Sprintf("win=%d type=%q style=%s start=%d events=%v audio=%v%s", c.Window, c.Type, c.Style, c.Start, c.Events, c.Audio, slow)
 }
 
 const c11SegBytes = 376 * 2 // every synthetic segment has the same size (byte-range addressing)
@@ -297,6 +304,9 @@ func c11RunCase(c *vh.Ctx, cs c11Case) (sig, msg, outcome string) {
 	srv := &stubServer{}
 	srv.handler = func(n int, path, rawQuery string, req *http.Request) srvResp {
 		name := path[strings.LastIndexByte(path, '/')+1:]
+		if cs.AudioSlow && (name == "audio.m3u8" || strings.HasPrefix(name, "aud") || name == "allaud.ts") {
+			time.Sleep(15 * time.Second)
+		}
 		if cs.Style == "dirs" && name != "index.m3u8" {
 			// strict about directories: /live/video/ holds the variant, /live/audio/ the rendition
 			wantDir := "/live/video/"
@@ -427,10 +437,11 @@ func c11RunCase(c *vh.Ctx, cs c11Case) (sig, msg, outcome string) {
 		}
 		return "", "", outcome
 	}
-	if s, m := cmp("video", gotV, wantV, false); s != "" {
+	// (a client that reports the end of the stream has played every rendition to its end: nothing is cut short then)
+	if s, m := cmp("video", gotV, wantV, got == "eos"); s != "" {
 		return fail(s, m)
 	}
-	if s, m := cmp("audio", gotA, wantA, false); s != "" {
+	if s, m := cmp("audio", gotA, wantA, got == "eos"); s != "" {
 		return fail(s, m)
 	}
 	// the end must be the end of one of the renditions; EOS only when both have ended with EOS
@@ -832,6 +843,10 @@ func c11Run(c *vh.Ctx) {
 				}
 				for _, ah := range c11Histories(2) {
 					cases = append(cases, c11Case{Window: g.Window, Type: g.Type, Style: g.Style, Start: 7, Events: h, Audio: append([]int{}, ah...)})
+					if len(h) > 0 && len(ah) > 0 && h[len(h)-1] == -1 && ah[len(ah)-1] == -1 {
+						// both renditions reach EXT-X-ENDLIST, the audio one much later
+						cases = append(cases, c11Case{Window: g.Window, Type: g.Type, Style: g.Style, Start: 7, Events: h, Audio: append([]int{}, ah...), AudioSlow: true})
+					}
 				}
 			}
 			for _, cs := range cases {
